@@ -232,6 +232,7 @@ def run_verus_unit(u, workdir, tier, do_canaries=True):
     with open(path, 'w') as f:
         f.write(text)
     res['assembled_sha256'] = hashlib.sha256(text.encode()).hexdigest()
+    res['witness_map'] = u.get('witness', {})
     res['obligations'] = meta['obligations']
     res['functions'] = meta['functions']
     res['assumed'] = meta['assumed']
